@@ -60,7 +60,10 @@ class Check(PropertyCheck):
             # exhaustive small scope first (every instance <= 2 jobs x 2 operations, durations 0..2, every interleaving)
             self.extra_coverage = {"exhaustive_small_scope": True}
             yield from slices.exhaustive_small("queries")
-        for _ in range(n):
+        for _i in range(n):
+            if _i % 20 == 13:
+                yield Scenario(["new", f"mark raiser {rng.randint(0, 10**6)}"], {"family": "raiser", "accepted": 3, "queries": 4})
+                continue
             yield self.scenario(rng, tier)
 
     def scenario(self, rng: random.Random, tier) -> Scenario:
@@ -159,6 +162,8 @@ class Check(PropertyCheck):
     def oracle(self, impl, scenario, index, line, out, ctx):
         # the reference is recomputed from the instance and the DISPATCH HISTORY (accepted requests since the last
         # reset, taken from the events alone): forced start times, per-machine lists — never from the dispatcher's objects
+        if line.startswith("mark raiser"):
+            return oracles.raiser_episode(int(line.split()[2]))["C05"]
         if line.startswith("inst") or line == "reset" or line == "new":
             ctx["hist"] = []
             return []
